@@ -2,3 +2,11 @@ add("C09", OTHER, "SSA/asm -> SMT (Int-LF linear integer forms, z3): per-kernel 
     "Bounded-input-free solver verdict per field kernel (value mod p, no unintended wrap, output bounds) for every limb vector within the closed invariant limbs<=2^51+2^38, for the portable Go code and the amd64 assembly; Invert/Pow22523 by exponent arithmetic over the real loops. One inductive step per operation covers operation sequences of any length.",
     "Trusted: go/ssa lowering, the executor and Int-LF normaliser (differentially validated), asm semantics of 9 mnemonics, z3; Fermat's little theorem; arm64 assembly outside.",
     "DESIGN.md 5/C09")
+add("C10", OTHER, "SSA -> SMT (z3 bit-vectors for (de)serialisation, masks and comparisons; Int-LF for reduce / wide reduction); symbolic slice length for rejects",
+    "Solver verdict over all 2^256 / 2^512 input strings and all limb vectors within the invariant: canonical Bytes (reduce contract + bit-exact serialisation loop incl. encoding/binary SSA), SetBytes bit slices, SetWideBytes value mod p, Equal/IsNegative through the canonical encoding with crypto/subtle.ConstantTimeCompare executed from SSA, Select/Swap exact incl. aliasing, every wrong length rejected (one symbolic length).",
+    "Trusted: go/ssa lowering, executor/encodings, z3. Bytes is summarised by its own contract inside Equal/IsNegative (assume/guarantee, discharged in the same run).",
+    "DESIGN.md 5/C10")
+add("C20", "translation_validation", "amd64 assembly interpreter + go/ssa -> SMT (Int-LF, shared product atoms): limb-for-limb equality of fe_amd64.s and the portable code; SSA diff of both build configurations",
+    "feMul/feSquare from fe_amd64.s and feMulGeneric/feSquareGeneric produce identical limbs for every input within the invariant (incl. every aliasing pattern), each also meets the value/bounds contract; default and purego builds differ only in these two functions (file sets, hashes, SSA of all other functions compared).",
+    "Trusted: my semantics of 9 amd64 mnemonics, go/packages build-tag resolution, z3. arm64 outside.",
+    "DESIGN.md 5/C20")
